@@ -62,7 +62,7 @@ PROPERTIES['C06'] = {
     'level_note': _DOC_NOTE + ' The re-parse speaks for the concrete text of each path.',
 }
 PROPERTIES['C19'] = {
-    'modules': ['harness.rep_ops', 'harness.view_ops', 'harness.c09_values', 'harness.c07_store', 'harness.slot_ops'], 'budget': {'quick': 900, 'thorough': 3300},
+    'modules': ['harness.rep_ops', 'harness.view_ops', 'harness.c09_values', 'harness.c07_store', 'harness.slot_ops', 'harness.claim_hist'], 'budget': {'quick': 900, 'thorough': 3300},
     'level_text': _DOC_TEXT % 'text, token identities and identity-level tree dump before vs after every refused call',
     'level_note': _DOC_NOTE,
 }
